@@ -1,7 +1,7 @@
 (* C02: the reference reader gives back what the plain serializer wrote.  Lemmas. *)
 From Coq Require Import Lia.
 From Delb.Base Require Import PyStr PyStrFacts PyDict PyDictFacts.
-From Delb.Gen Require Import GenNames GenNs.
+From Delb.Gen Require Import GenNames GenNs GenValidators.
 From Delb.Tree Require Import ATree Merge MergeFacts.
 From Delb.Ns Require Import Namespaces NamespacesFacts Prefixes PrefixFacts.
 From Delb.Xml Require Import Plain PlainFacts Reader Tokens.
@@ -540,4 +540,26 @@ Proof.
   intros HO HK. cbn [render_root toks_root]. apply serialize_tag_toks.
   - apply root_data_eq. eapply open_element_nodup. exact HO.
   - eapply render_kids_toks. exact HK.
+Qed.
+
+(* ---- the generated comment validator gives what the reader needs ----------------------------------------------- *)
+Lemma py_endswith_cons c r : r <> [] -> py_endswith (c :: r) [DASH] = py_endswith r [DASH].
+Proof.
+  intros H. unfold py_endswith. cbn [rev]. destruct (rev r) as [|x t] eqn:E.
+  - exfalso. apply H. rewrite <- (rev_involutive r), E. reflexivity.
+  - reflexivity.
+Qed.
+Lemma comment_validator_ok s : comment_content_refused s = false -> comment_ok s = true.
+Proof.
+  unfold comment_content_refused, comment_ok. intros H. apply orb_false_iff in H. destruct H as [HC HE].
+  induction s as [|c r IH]; [reflexivity|].
+  cbn [py_contains] in HC. apply orb_false_iff in HC. destruct HC as [HP HC].
+  cbn [app no2]. apply andb_true_intro. split.
+  - apply negb_true_iff. destruct r as [|d r'].
+    + cbn [app starts2]. change (py_endswith [c] [45%N]) with (N.eqb 45 c && true)%bool in HE.
+      rewrite andb_true_r in HE. rewrite N.eqb_sym. change DASH with 45%N. rewrite HE. reflexivity.
+    + cbn [app starts2]. cbn [py_prefix] in HP. rewrite andb_true_r in HP.
+      rewrite (N.eqb_sym c), (N.eqb_sym d). exact HP.
+  - destruct r as [|d r']; [reflexivity|]. apply IH; [exact HC|].
+    rewrite <- HE. symmetry. apply py_endswith_cons. discriminate.
 Qed.
